@@ -35,6 +35,9 @@ def obligations(tier):
                              "subset of the three kinds: first accepting kind in the caller's order wins, whatever came before"))
     obs.append(Ob("C09.framing", "CH", "harness.h_chart", "framing", 300, funcs=("chartparse.chart.Chart._partition_lines_by_data_section",),
                   bounds="3 sections x <=2 symbolic body lines of any length (blank lines included): this section's parser receives exactly its own body lines"))
+    obs.append(Ob("C09.dispatcher_long", "CH", "harness.h_track", "dispatcher_long", 900, funcs=("chartparse.track.parse_data_from_chart_lines",),
+                  bounds="a section of 5..4097 lines (15 sizes around powers of two) of one kind followed by 1-3 lines accepted by any subset of the three kinds: "
+                         "first accepting kind of the caller's order wins however long the section (native execution, solver-chosen case)"))
     return obs
 
 
